@@ -243,5 +243,134 @@ Proof.
     unfold last_line_length_of. cbn [n_decs td_lll td_kids]. fold (kids_last kids). rewrite <- Hkq. nia.
   - intros t c [<-|Hin] Ht; [|exact (Hcs' t c Hin Ht)]. cbn [td_dec] in Ht. subst dec. destruct b; [injection Ht as <-; exact Hcc|discriminate].
 Qed.
+
+Lemma both_unc st ind : cache_bd st -> NB ind ->
+  both W lvs cs lv st ind = both_inf W lvs csi lv st ind /\ cache_bd (fst (both W lvs cs lv st ind)) /\ Forall NB (snd (both W lvs cs lv st ind)).
+Proof.
+  intros Hst Hind. unfold both, both_inf.
+  destruct (potential_unc st ind true Hst Hind) as (A1 & A2 & A3). rewrite <- A1.
+  destruct (pot st ind true) as [st1 a]. cbn [fst snd] in *.
+  destruct (potential_unc st1 ind false A2 Hind) as (B1 & B2 & B3). rewrite <- B1.
+  destruct (pot st1 ind false) as [st2 b]. cbn [fst snd] in *.
+  split; [reflexivity|]. split; [exact B2|apply Forall_app; split; assumption].
+Qed.
+
+Definition oNB (x : option node) : Prop := match x with Some n => NB n | None => True end.
+Definition res_NB (r : walk_res) : Prop := match r with W_push n => NB n | W_extend l => Forall NB l | W_dead | W_fuel => True end.
+Definition step_NB (s : wstep) : Prop :=
+  match s with WS_stop r => res_NB r | WS_forward n x => NB n /\ oNB x | WS_restart n => NB n end.
+
+Lemma finish_NB l : Forall NB l -> step_NB (finish l).
+Proof. intros H. unfold finish. destruct l as [|n [|n2 l']]; cbn; try exact H. inversion H; assumption. Qed.
+
+Lemma kept_NB li sols : Forall NB sols -> forall best acc, Forall NB acc ->
+  Forall NB (snd (fold_left (fun (acc : list N * list node) (n : node) =>
+                               if n_pen n <? best_at (fst acc) li then (upd_at li (fun _ => n_pen n) (fst acc), snd acc ++ [n]) else acc)
+                            sols (best, acc))).
+Proof.
+  induction 1 as [|n l Hn Hl IHl]; intros best acc Hacc; cbn [fold_left]; [exact Hacc|].
+  cbn [fst snd]. destruct (n_pen n <? best_at best li); apply IHl; [apply Forall_app; split; [exact Hacc|constructor; [exact Hn|constructor]]|exact Hacc].
+Qed.
+
+Notation wstep := (walk_step W lvs cs lv).
+Notation wstepi := (walk_step_inf W lvs csi lv).
+
+Lemma walk_step_unc nd indiff best st : cache_bd st -> NB nd -> oNB indiff ->
+  wstep nd indiff best st = wstepi nd indiff best st /\ cache_bd (snd (wstep nd indiff best st)) /\ step_NB (fst (fst (wstep nd indiff best st))).
+Proof.
+  intros Hst Hnd Hind. unfold walk_step, walk_step_inf. rewrite (NB_fits nd Hnd).
+  destruct (n_rest nd) as [|r rest] eqn:Hrest; [split; [reflexivity|split; [exact Hst|exact Hnd]]|].
+  assert (Hafter : forall succ indiff' st', cache_bd st' -> Forall NB succ -> oNB indiff' ->
+            let x := match succ with
+                     | [n] => (WS_forward n indiff', best, st')
+                     | _ => match indiff' with
+                            | Some ind => let (st'', more) := both W lvs cs lv st' ind in (finish (succ ++ more), best, st'')
+                            | None => (finish succ, best, st')
+                            end
+                     end in
+            let y := match succ with
+                     | [n] => (WS_forward n indiff', best, st')
+                     | _ => match indiff' with
+                            | Some ind => let (st'', more) := both_inf W lvs csi lv st' ind in (finish (succ ++ more), best, st'')
+                            | None => (finish succ, best, st')
+                            end
+                     end in
+            x = y /\ cache_bd (snd x) /\ step_NB (fst (fst x))).
+  { intros succ indiff' st' Hc Hs Hi'.
+    assert (Hgen : let x := match indiff' with
+                            | Some ind => let (st'', more) := both W lvs cs lv st' ind in (finish (succ ++ more), best, st'')
+                            | None => (finish succ, best, st')
+                            end in
+                   let y := match indiff' with
+                            | Some ind => let (st'', more) := both_inf W lvs csi lv st' ind in (finish (succ ++ more), best, st'')
+                            | None => (finish succ, best, st')
+                            end in
+                   x = y /\ cache_bd (snd x) /\ step_NB (fst (fst x))).
+    { destruct indiff' as [ind|]; [|cbn; split; [reflexivity|split; [exact Hc|apply finish_NB; exact Hs]]].
+      destruct (both_unc st' ind Hc Hi') as (B1 & B2 & B3). rewrite <- B1. destruct (both W lvs cs lv st' ind) as [st'' more]. cbn [fst snd] in *.
+      split; [reflexivity|split; [exact B2|apply finish_NB; apply Forall_app; split; assumption]]. }
+    destruct succ as [|n [|n2 l']]; try exact Hgen. cbn. split; [reflexivity|split; [exact Hc|split; [inversion Hs; assumption|exact Hi']]]. }
+  destruct (get_formatting_requirement (lv_type lv) (tr_win r) (tr_ty r) (tr_inv r) (tr_stk r) (n_data nd) (n_nli nd)).
+  - destruct (potential_unc st nd false Hst Hnd) as (P1 & P2 & P3). rewrite <- P1. destruct (pot st nd false) as [st' succ]. cbn [fst snd] in *.
+    apply Hafter; [exact P2|exact P3|]. destruct indiff; [exact Hind|exact Hnd].
+  - destruct indiff as [ind|]; [|split; [reflexivity|split; [exact Hst|exact I]]].
+    destruct (both_unc st ind Hst Hind) as (B1 & B2 & B3). rewrite <- B1. destruct (both W lvs cs lv st ind) as [st' succ]. cbn [fst snd] in *.
+    split; [reflexivity|split; [exact B2|apply finish_NB; exact B3]].
+  - destruct (potential_unc st nd true Hst Hnd) as (P1 & P2 & P3). rewrite <- P1. destruct (pot st nd true) as [st' sols]. cbn [fst snd] in *.
+    pose proof (kept_NB (N.to_nat (n_nli nd)) sols P3 best [] (Forall_nil _)) as Hk.
+    destruct (fold_left _ sols (best, [])) as [best' kept]. cbn [fst snd] in *.
+    split; [reflexivity|split; [exact P2|apply finish_NB; exact Hk]].
+  - destruct (potential_unc st nd false Hst Hnd) as (P1 & P2 & P3). rewrite <- P1. destruct (pot st nd false) as [st' succ]. cbn [fst snd] in *.
+    apply Hafter; [exact P2|exact P3|exact Hind].
+Qed.
+
+Lemma walk_unc : forall f1 f2 nd indiff best st, cache_bd st -> NB nd -> oNB indiff ->
+  walk W lvs cs lv f1 f2 nd indiff best st = walk_inf W lvs csi lv f1 f2 nd indiff best st
+  /\ cache_bd (snd (walk W lvs cs lv f1 f2 nd indiff best st)) /\ res_NB (fst (fst (walk W lvs cs lv f1 f2 nd indiff best st))).
+Proof.
+  induction f1 as [|f1 IH1]; induction f2 as [|f2 IH2]; intros nd indiff best st Hst Hnd Hind;
+    try (cbn; split; [reflexivity|split; [exact Hst|exact I]]).
+  - cbn [walk walk_inf]. destruct (walk_step_unc nd indiff best st Hst Hnd Hind) as (S1 & S2 & S3). rewrite <- S1.
+    destruct (wstep nd indiff best st) as [[s best'] st']. cbn [fst snd] in *.
+    destruct s as [r|n x|n]; cbn [fst snd]; [split; [reflexivity|split; assumption]| |split; [reflexivity|split; [exact S2|exact I]]].
+    destruct S3 as (Hn & Hx). apply IH2; assumption.
+  - cbn [walk walk_inf]. destruct (walk_step_unc nd indiff best st Hst Hnd Hind) as (S1 & S2 & S3). rewrite <- S1.
+    destruct (wstep nd indiff best st) as [[s best'] st']. cbn [fst snd] in *.
+    destruct s as [r|n x|n]; cbn [fst snd]; [split; [reflexivity|split; assumption]| |].
+    + destruct S3 as (Hn & Hx). apply IH2; assumption.
+    + apply IH1; [exact S2|exact S3|exact I].
+Qed.
+
+Lemma cache_bd_same st st' : ss_cache st' = ss_cache st -> cache_bd st -> cache_bd st'.
+Proof. intros E H. unfold cache_bd. rewrite E. exact H. Qed.
+
+Definition sres_NB (r : sres) : Prop :=
+  match r with SR_ok s => forall l, sol_last s = Some l -> l <= M + m * psum (lv_recs lv) | _ => True end.
+
+Lemma main_loop_unc : forall fuel h iter best st, cache_bd st -> heap_all NB h ->
+  main_loop W lvs cs lv fuel h iter best st = main_loop_inf W lvs csi lv fuel h iter best st
+  /\ cache_bd (fst (main_loop W lvs cs lv fuel h iter best st)) /\ sres_NB (snd (main_loop W lvs cs lv fuel h iter best st)).
+Proof.
+  induction fuel as [|f IHf]; intros h iter best st Hst Hh; cbn [main_loop main_loop_inf].
+  - split; [reflexivity|split; [eapply cache_bd_same; [|exact Hst]; reflexivity|exact I]].
+  - destruct (heap_pop h) as [[nd h']|] eqn:Epop; [|split; [reflexivity|split; [eapply cache_bd_same; [|exact Hst]; reflexivity|exact I]]].
+    destruct (heap_pop_all NB h nd h' Hh Epop) as (Hnd & Hh').
+    destruct (w_iter W <? iter); [split; [reflexivity|split; [eapply cache_bd_same; [|exact Hst]; reflexivity|exact I]]|].
+    destruct (n_rest nd) as [|r rest] eqn:Hrest.
+    + split; [reflexivity|split; [eapply cache_bd_same; [|exact Hst]; reflexivity|]]. cbn [snd sres_NB]. intros l Hl.
+      destruct Hnd as (_ & (done & Hsplit & Hlast) & _). rewrite Hrest, app_nil_r in Hsplit.
+      assert (l <= last_line_length_of nd).
+      { unfold sol_last, solution_of_node, last_opt' in Hl. cbn [sol_decs] in Hl. rewrite rev_involutive in Hl. unfold last_line_length_of.
+        destruct (n_decs nd) as [|t ?]; [discriminate|]. cbn [option_map] in Hl. injection Hl as <-. lia. }
+      assert (psum done = psum (lv_recs lv)) by (rewrite <- Hsplit, psum_rev; reflexivity). nia.
+    + destruct (best_at best (N.to_nat (N.pred (n_nli nd))) <? n_pen nd); [apply IHf; assumption|].
+      destruct (walk_unc (S (length (r :: rest))) (S (length (r :: rest))) nd None best st Hst Hnd I) as (W1 & W2 & W3). rewrite <- W1.
+      destruct (walk W lvs cs lv (S (length (r :: rest))) (S (length (r :: rest))) nd None best st) as [[res best'] st']. cbn [fst snd] in *.
+      destruct res as [n|l| |].
+      * apply IHf; [exact W2|apply heap_push_all; assumption].
+      * apply IHf; [exact W2|apply heap_extend_all; assumption].
+      * apply IHf; assumption.
+      * split; [reflexivity|split; [eapply cache_bd_same; [|exact W2]; reflexivity|exact I]].
+Qed.
 End Child.
 End Unc.
